@@ -59,7 +59,18 @@ Theorem C01_sites_covered :
       "x/bridge/keeper:Keeper.PowerDiff"; "x/oracle/keeper:Keeper.AllocateRewards";
       "x/oracle/keeper:Keeper.WeightedMode" ]%string
     [ "crypto/rand.Read:x/oracle/utils:Salt"; "go:app:New"; "time.Now:lib/time:TimeProviderImpl.Now";
-      "time.Now:x/mint:BeginBlocker" ]%string) = [].
+      "time.Now:x/mint:BeginBlocker" ]%string
+    [ "field:app:App.DaemonHealthMonitor (pointer to HealthMonitor)"; "field:app:App.PriceFeedClient (pointer to Client)";
+      "field:app:App.ReporterClient (pointer to Client)"; "field:app:App.Server (pointer to Server)";
+      "field:app:App.TokenBridgeClient (pointer to Client)";
+      "field:app:App.keys (map)"; "field:app:App.memKeys (map)"; "field:app:App.tkeys (map)";
+      "field:daemons/server/types/pricefeed:ExchangeToPrice.exchangeToPriceTimestamp (map)";
+      "field:daemons/server/types/pricefeed:MarketToExchangePrices.Mutex (sync)";
+      "field:daemons/server/types/pricefeed:MarketToExchangePrices.marketToExchangePrices (map)";
+      "field:x/bridge:BridgeInputs.Config (pointer to Module)"; "field:x/dispute:DisputeInputs.Config (pointer to Module)";
+      "field:x/mint:MintInputs.Config (pointer to Module)"; "field:x/oracle:OracleInputs.Config (pointer to Module)";
+      "field:x/registry/module:RegistryInputs.Config (pointer to Module)"; "field:x/reporter/module:ModuleInputs.Config (pointer to Module)";
+      "var:app:maccPerms (map)"; "var:lib:bigPow10Memo (map)" ]%string) = [].
 Proof. exact sites_today_covered. Qed.
 Print Assumptions C01_sites_covered.
 
@@ -67,3 +78,20 @@ Theorem C01_repeat_check_sound rs impls : c01_mode_check (ModeCase rs impls) = [
   forall a b, In a impls -> In b impls -> a = b.
 Proof. exact (c01_mode_check_sound rs impls). Qed.
 Print Assumptions C01_repeat_check_sound.
+
+
+(* node-local memory: a block handler whose resulting store and output do not depend on what the node holds in memory
+   makes all nodes holding the same store agree on every sequence of blocks, whatever their memories (run from
+   genesis, restarted, state-synced); the scanner's third list is the evidence that the consensus objects of /repo
+   hold no such memory outside the justified allow-list.  A cached read refreshed by a write that is then rolled
+   back is not of that kind. *)
+Theorem C01_nodes_with_equal_stores_agree {L S B O : Type} (h : L -> S -> B -> L * S * O) :
+  local_free h -> forall bs l l' s, run_node h l s bs = run_node h l' s bs.
+Proof. exact (local_free_nodes_agree h). Qed.
+Print Assumptions C01_nodes_with_equal_stores_agree.
+
+Theorem C01_cached_read_refuted :
+  ~ local_free cached_handler /\
+  run_node cached_handler (Some 1) 0 [false] <> run_node cached_handler None 0 [false].
+Proof. exact cached_handler_nodes_disagree. Qed.
+Print Assumptions C01_cached_read_refuted.
